@@ -6,6 +6,8 @@ Input lines
   {"base": path, "sources": [VAL], "fuel": n, "default": VAL|null}
                                                    -> {"ok": VAL | null, "ctors": [CTOR]} | {"err": kind}
   {"explicit": VAL, "prev": VAL|null, "base": path}-> {"ok": VAL} | {"err": kind}    (shortToExplicit)
+  {"walk": {"keys": [s], "both": [s]}}             -> {"handled": [s]}                (discardWalk with the separator of the source)
+  {"dataspec": {"decl": path, "val": VAL}}         -> {"fields": [[k, VAL]] | null}   (dataFieldsOf)
 ENV   = {"classes":[{"path":s,"name":s,"abstract":b,"params":[PARAM]}], "edges":[[sub,super]],
          "imports":[[path, {"k":"cls","path":s} | {"k":"func","path":s,"ret":s,"params":[PARAM]} | {"k":"other"}]]}
 PARAM = {"name":s, "ty":["scalar"|"optScalar"|"cls"|"optCls", s], "dflt": [] | [VAL]}
@@ -17,6 +19,7 @@ CTOR  = {"target":s,"args":[[k,ARG]],"kwargs":[[k,ARG]]},  ARG = {"lit":[ty,tok]
 -/
 import Lean.Data.Json
 import Jap.Core.ClassPath
+import Jap.Gen.ClassPathTables
 
 open Lean Jap.ClassPath
 
@@ -147,6 +150,21 @@ def step (E : ClassEnv) (j : Json) : Json × ClassEnv :=
       regs.foldl (fun reg e => addInstantiator reg e.1 e.2) []
     let l := getInstantiators (parse "own") (parse "parent") (parse "ctx")
     (Json.mkObj [("tag", .str (pickInstantiator E l (getStr j "cls"))), ("order", .arr (l.map fun i => Json.str i.tag).toArray)], E)
+  | _ =>
+  match j.getObjVal? "walk" with
+  | .ok w =>
+    -- the work-list walk of the merge: flat keys in order, and the keys that hold a class spec on both sides
+    let strs (k : String) : List String := (getArr w k).filterMap fun x => match x with | .str s => some s | _ => none
+    let keys := strs "keys"
+    let both := strs "both"
+    (Json.mkObj [("handled", .arr ((discardWalk Jap.Gen.discardPruneSep (fun k => both.contains k) keys.length keys).map Json.str).toArray)], E)
+  | _ =>
+  match j.getObjVal? "dataspec" with
+  | .ok d =>
+    -- which dict is parsed as the fields of the declared dataclass
+    match dataFieldsOf (getStr d "decl") (valOfJson (d.getObjVal? "val" |>.toOption |>.getD .null)) with
+    | some kv => (Json.mkObj [("fields", .arr (kv.map fun e => Json.arr #[.str e.1, valToJson e.2]).toArray)], E)
+    | none => (Json.mkObj [("fields", .null)], E)
   | _ =>
   match j.getObjVal? "explicit" with
   | .ok v =>
